@@ -235,6 +235,12 @@ class DFXPReader(BaseReader):
                 # unicode string with xml entities already converted to unicode
                 # characters.
                 tag_text = result.groups()[0]
+                # Text wrapped over several source lines keeps all of its
+                # words: every further line is appended, its line break and
+                # indentation counting as one space
+                for line in re.split("[\n\r]+", tag[result.end():]):
+                    if line.strip():
+                        tag_text += ' ' + line.lstrip()
                 node = CaptionNode.create_text(
                     tag_text, layout_info=tag.layout_info)
                 self.nodes.append(node)
